@@ -172,6 +172,12 @@ fn spawn_worker(
     if let Some((f, i)) = only {
         c.arg("--only").arg(format!("{}:{}", f, i));
     }
+    // fault injection for the workers only: a preload shim (e.g. the warped clock of probes/timewarp)
+    if let Ok(pre) = std::env::var("VERIF_WORKER_PRELOAD") {
+        if !pre.is_empty() {
+            c.env("LD_PRELOAD", pre);
+        }
+    }
     c.stdin(Stdio::null())
         .stdout(Stdio::null())
         .stderr(Stdio::piped());
